@@ -376,6 +376,99 @@ Example C15_nonvacuous_resume :
                                           (held oth_x (fst pkA, PS "S256")))) None None = Ok tt.
 Proof. repeat split; vm_compute; reflexivity. Qed.
 
+(* ================================================================ extension parameters; whether the PKCE hooks RUN
+   The add-on is two post-parse hooks run by Endpoint.do_post_parse_request (Model/Pkce.v: post_parse, authn_hook,
+   token_hook).  A request is a list of members (rparams): the PKCE parameters and, next to them, arbitrary extension
+   parameters ax (authorization request, whatever transport delivered it) and tx (token request) - `error`,
+   `error_description`, `response_args`, `authenticated`, `__verified_request`, `return_uri`, names of the keys of the
+   hook results ... ; the only condition: they are not themselves named like the PKCE parameters of that leg.
+   The rule: forall extras, flow (rq + extras) = flow rq. *)
+
+(* the hook loop applies the first hook to every request, whatever its members *)
+Theorem C15_hooks_run_on_every_request : forall h hs r, post_parse (h :: hs) (PReq r) = post_parse hs (h r).
+Proof. exact post_parse_runs. Qed.
+Print Assumptions C15_hooks_run_on_every_request.
+
+(* hooks registered before the PKCE hook that leave the request alone do not keep it from running *)
+Theorem C15_hooks_run_after_transparent_hooks : forall pre hs r,
+  (forall h, In h pre -> h r = PReq r) -> post_parse (pre ++ hs)%list (PReq r) = post_parse hs (PReq r).
+Proof. exact post_parse_transparent. Qed.
+Print Assumptions C15_hooks_run_after_transparent_hooks.
+
+(* the authorization hook on a whole request is post_authn_parse on the two parameters it reads by name *)
+Theorem C15_authz_hook_reads_pair_only : forall cf ce r,
+  authz_leg_x cf ce r = authn_leg cf ce (sget k_cc r) (sget k_ccm r).
+Proof. exact authz_leg_x_reads. Qed.
+Print Assumptions C15_authz_hook_reads_pair_only.
+
+(* what the grant records does not depend on the extension parameters of the authorization request (every transport) *)
+Theorem C15_extras_recorded_irrelevant : forall cf ce d ax,
+  assoc k_cc ax = None -> assoc k_ccm ax = None ->
+  authz_leg_x cf ce (ax ++ pk_members (assembled d))%list = recorded_d cf ce d.
+Proof. exact authz_extras_irrelevant. Qed.
+Print Assumptions C15_extras_recorded_irrelevant.
+
+(* THE statement: the verdict of a flow is the verdict of the same flow without the extension parameters, both legs,
+   every transport *)
+Theorem C15_extras_irrelevant : forall HB cf ce d ax tx cv t,
+  assoc k_cc ax = None -> assoc k_ccm ax = None -> assoc k_cv tx = None -> assoc k_ccm tx = None ->
+  flow_x HB cf ce d ax tx cv t = flow_d HB cf ce d cv t.
+Proof. exact flow_x_extras_irrelevant. Qed.
+Print Assumptions C15_extras_irrelevant.
+
+Theorem C15_extras_any_two_agree : forall HB cf ce d ax tx ax' tx' cv t,
+  assoc k_cc ax = None -> assoc k_ccm ax = None -> assoc k_cv tx = None -> assoc k_ccm tx = None ->
+  assoc k_cc ax' = None -> assoc k_ccm ax' = None -> assoc k_cv tx' = None -> assoc k_ccm tx' = None ->
+  flow_x HB cf ce d ax tx cv t = flow_x HB cf ce d ax' tx' cv t.
+Proof. exact flow_x_any_extras. Qed.
+Print Assumptions C15_extras_any_two_agree.
+
+(* essential: no code without a challenge, whatever else the request carries *)
+Theorem C15_extras_essential : forall HB cf ce d ax tx cv t,
+  assoc k_cc ax = None -> assoc k_ccm ax = None -> assoc k_cv tx = None -> assoc k_ccm tx = None ->
+  essential_eff (pc_essential cf) ce = true -> fst (assembled d) = None ->
+  flow_x HB cf ce d ax tx cv t = AzRefused 1.
+Proof. exact flow_x_essential. Qed.
+Print Assumptions C15_extras_essential.
+
+(* through the log-in page: the extension parameters travel in the page's query like every other parameter *)
+Theorem C15_extras_resumed_irrelevant : forall HB cf ce d lists others ax tx cv t,
+  resumable lists others -> resumable lists (others ++ ax)%list ->
+  (forall st, recorded_d cf ce d = Ok st -> to_query (held others st) <> None) ->
+  (forall st, recorded_d cf ce d = Ok st -> to_query (held (others ++ ax)%list st) <> None) ->
+  assoc k_cv tx = None -> assoc k_ccm tx = None ->
+  flow_ix HB cf ce d lists others ax tx cv t = flow_i HB cf ce d lists others cv t.
+Proof. exact flow_ix_extras_irrelevant. Qed.
+Print Assumptions C15_extras_resumed_irrelevant.
+
+(* why "the loop looks at the class, not at the members" matters: a loop that stops as soon as the message HAS a member
+   called `error` (post_parse_m) never runs the hooks on such a request - a code without a challenge under essential
+   PKCE, tokens without a verifier *)
+Fixpoint post_parse_m (hs : list phook) (m : pmsg) : pmsg :=
+  match hs with
+  | [] => m
+  | h :: t => match m with
+              | PReq r => if has_key (PS "error") r then m else post_parse_m t (h r)
+              | _ => m
+              end
+  end.
+Definition ext_x : rparams :=
+  [(PS "error", PvS (PS "x")); (PS "error_description", PvS (PS "Missing required code_challenge"));
+   (PS "response_args", PvS (PS "{}")); (PS "authenticated", PvS (PS "true")); (PS "__verified_request", PvS (PS "1"))].
+Example C15_nonvacuous_extras :
+  assoc k_cc ext_x = None /\ assoc k_ccm ext_x = None /\ assoc k_cv ext_x = None
+  /\ flow_x HBx cf_all None (DFront pkA) ext_x ext_x (Some (PS "verifier-A")) None = Tokens
+  /\ flow_x HBx cf_all None (DFront pkA) ext_x ext_x (Some (PS "verifier-B")) None = TkRefused 4
+  /\ flow_x HBx cf_all None (DValue pkA pkB) ext_x ext_x None None = TkRefused 3
+  /\ flow_x HBx cf_all None (DFront pk0) ext_x ext_x None None = AzRefused 1
+  /\ flow_x HBx cf_all None (DPushed (PbPlain (fst pkA, Some (PS "S1"))) pkB) ext_x [] None None = AzRefused 2
+  (* the member-sensitive loop: neither hook runs *)
+  /\ post_parse_m [authn_hook cf_all None] (PReq (ext_x ++ pk_members pk0)%list) = PReq (ext_x ++ pk_members pk0)%list
+  /\ post_parse [authn_hook cf_all None] (PReq (ext_x ++ pk_members pk0)%list) = PErr 1
+  /\ post_parse_m [token_hook HBx (fst pkA, PS "S256")] (PReq (ext_x ++ tk_members None None)%list) = PReq (ext_x ++ tk_members None None)%list
+  /\ post_parse [token_hook HBx (fst pkA, PS "S256")] (PReq (ext_x ++ tk_members None None)%list) = PErr 3.
+Proof. repeat split; vm_compute; reflexivity. Qed.
+
 (* Tie to the source: Gen/Src_pkce.v is the CURRENT idpyoidc.server.oauth2.add_on.pkce.verify_code_challenge, translated
    by harness/py2v.py on every run (CC_METHOD = the regenerated table server_cc_methods over the abstract hash HB). *)
 From Verif Require Lib.PyOps Gen.Src_pkce Proofs.Src_refine_pkce.
